@@ -135,3 +135,5 @@ func die(f string, a ...interface{}) {
 	fmt.Fprintf(os.Stderr, "harness: "+f+"\n", a...)
 	os.Exit(2)
 }
+
+func envBase() string { return os.Getenv("VERIF_BASE") }
